@@ -13,6 +13,7 @@ type Contract struct {
 	Raw      []string
 	Options  map[string]bool
 	Props    []string
+	AtEvals  []*AtEval
 }
 
 type Clause struct {
